@@ -197,6 +197,15 @@ impl Store {
             }
         }
 
+        // Remove the backup of an earlier rebuild, if any (the rename of the lmdb
+        // directory below cannot replace a non-empty directory)
+        if events_bak_path.exists() {
+            fs::remove_file(&events_bak_path)?;
+        }
+        if indexes_bak_path.exists() {
+            fs::remove_dir_all(&indexes_bak_path)?;
+        }
+
         // Backup existing data (moving out of the way)
         fs::rename(&events_path, &events_bak_path)?;
         fs::rename(&indexes_path, &indexes_bak_path)?;
@@ -273,6 +282,18 @@ impl Store {
         new_txn.commit()?;
 
         new_store.sync()?;
+
+        // Close the backup completely. (Just dropping it would leave its LMDB
+        // environment open and cached under the backup path, and a later rebuild
+        // would be handed that stale environment instead of the new backup.)
+        drop(old_txn);
+        let Store {
+            events: old_events,
+            indexes: old_indexes,
+            ..
+        } = old_store;
+        old_indexes.close()?;
+        drop(old_events);
 
         if need_chown {
             std::os::unix::fs::chown(&events_path, Some(file_uid), None)?;
